@@ -32,12 +32,40 @@ fn one(dir: &str) -> serde_json::Value {
            "locales": infos.get_locales().map(|l| l.to_string()).collect::<Vec<_>>()})
 }
 
+/// C20: the options the build helper derives, the locales and namespaces it reports
+fn options(dir: &str) -> serde_json::Value {
+    let infos = match std::panic::catch_unwind(|| TranslationsInfos::parse_at_dir(dir)) {
+        Ok(Ok(i)) => i,
+        Ok(Err(e)) => return json!({"dir": dir, "status": "error", "error": e.to_string()}),
+        Err(_) => return json!({"dir": dir, "status": "panic"}),
+    };
+    let mut opts: Vec<String> = infos.verif_used_options().into_iter().map(|o| format!("{:?}", o)).collect();
+    opts.sort();
+    let mut keys: Vec<String> = infos.get_icu_keys().map(|k| k.path().to_string()).collect();
+    keys.sort();
+    keys.dedup();
+    json!({"dir": dir, "status": "ok", "options": opts, "data_keys": keys,
+           "locales": infos.get_locales().map(|l| l.to_string()).collect::<Vec<_>>(),
+           "langids": infos.get_locales_langids().map(|l| l.to_string()).collect::<Vec<_>>(),
+           "namespaces": infos.get_namespaces().map(|it| it.map(|n| n.to_string()).collect::<Vec<_>>())})
+}
+
 fn main() {
     use std::io::BufRead;
     std::panic::set_hook(Box::new(|_| {}));
     let args: Vec<String> = std::env::args().collect();
     if args.len() > 2 && args[1] == "tables" {
         println!("{}", one(&args[2]));
+        return;
+    }
+    if args.len() > 1 && args[1] == "options" {
+        for line in std::io::stdin().lock().lines() {
+            let line = line.unwrap();
+            let d = line.trim();
+            if !d.is_empty() {
+                println!("{}", options(d));
+            }
+        }
         return;
     }
     for line in std::io::stdin().lock().lines() {
